@@ -21,8 +21,7 @@ Ops(s) ==
    ELSE {})
   \cup {[a |-> "infer", x |-> x, prop |-> p] : x \in [Neurons -> XVals], p \in BOOLEAN}
   \cup {[a |-> "set_rates", r |-> r] : r \in RatesOffered}
-  \cup {[a |-> "save"]}
-  \cup (IF s.saved.has THEN {[a |-> "load"], [a |-> "reload"]} ELSE {})
+  \cup {[a |-> "load", r |-> r, kind |-> k] : r \in RatesOffered \cup {Zero}, k \in {"self", "fresh", "copy"}}
 
 Init == st = Fresh(R)
 Next == \E o \in Ops(st) : \E mo \in MApplyR(st, o, R) : st' = mo.st
